@@ -86,6 +86,14 @@ Theorem split_newline_write_tears :
 Proof. vm_compute. reflexivity. Qed.
 Print Assumptions split_newline_write_tears.
 
+(* per-request state is necessary: with ONE catcher shared by the requests -- even a correctly locked one --
+   the order print(A), take(B), take(A) gives request B the message of A and A none (round-6 regression) *)
+Theorem shared_catcher_swaps_messages :
+  let c := seq_run [0; 1; 0]%nat ([], cat_threads) in
+  a_loc (snd c 0%nat) = [] /\ a_loc (snd c 1%nat) = ["Focus expression matched no samples"].
+Proof. vm_compute. split; reflexivity. Qed.
+Print Assumptions shared_catcher_swaps_messages.
+
 (* sync.Once around computeBase: the body runs exactly once and every caller that has returned
    reads the value computed by that one run *)
 Theorem once_computes_once : forall (A V : Type) (f : A -> V) (addr : nat -> A) th0 log s,
